@@ -506,6 +506,9 @@ def check_kernels(ctx, quads, k, texts):
             ctx.add_failure("C06.elementwise", "_get_fractional_distances gives %r inside a batch but %r alone for %s" % ((tf, sf), ts1, q), rp)
         if isnan(tf) != isnan(sf) and False:
             pass
+        if produced and any(isnan(v) for v in q[:8]):
+            ctx.add_failure("C06.surround.value_with_missing_corner", "_get_fractional_distances returns (t, s) = %r although a corner is NaN "
+                            "(not found): %s" % ((tf, sf), P), rp)
         if produced:
             if not (0 <= tf <= 1 and 0 <= sf <= 1):
                 ctx.add_failure("C06.st_range", "_get_fractional_distances returned (t, s) = %r outside [0,1]^2 for %s" % ((tf, sf), q), rp)
@@ -688,6 +691,11 @@ def check_resamplers(ctx, cases, obs, texts):
             sur = surrounded(P, x, y)
             ctx.count("pixel:value:" + ("surrounded" if sur else "not_surrounded"))
             sur_n += sur
+            if not sur:
+                ctx.add_failure("C06.surround.value_with_missing_corner",
+                                "%s: target pixel %d at (%r, %r) gets values %s from source pixels at %s, which do not surround it (an open quadrant "
+                                "has no neighbour; the parallelogram case answers from three corners and the fourth weight s*t = %r multiplies the "
+                                "datum of the nearest neighbour)" % (tpl, i, x, y, vals, P, s * t), dict(rp, pixel=i))
             for k, d in (("const", d_const), ("affine", d_aff), ("random", d_rnd)):
                 v = vals[k]
                 corners = [d[f] for f in flat]
